@@ -91,13 +91,32 @@ func toolPath(name string) string {
 	return ""
 }
 
+// uniform draws an integer in [lo, hi] without rapid's bias toward small
+// values (rapid.IntRange and SampledFrom favour the low end, which would starve
+// the later classes of a mixture): 20 fair coin flips, reduced modulo the range
+// (hi-lo must stay far below 2^20 for the modulo bias to be negligible).
+func uniform(rt *rapid.T, label string, lo, hi int) int {
+	bits := rapid.SliceOfN(rapid.Bool(), 20, 20).Draw(rt, label)
+	v := 0
+	for _, b := range bits {
+		v <<= 1
+		if b {
+			v |= 1
+		}
+	}
+	return lo + v%(hi-lo+1)
+}
+
+// pick draws one element uniformly.
+func pick[T any](rt *rapid.T, label string, xs []T) T { return xs[uniform(rt, label, 0, len(xs)-1)] }
+
 // weighted draws an index according to integer weights.
 func weighted(rt *rapid.T, label string, weights ...int) int {
 	total := 0
 	for _, w := range weights {
 		total += w
 	}
-	x := rapid.IntRange(0, total-1).Draw(rt, label)
+	x := uniform(rt, label, 0, total-1)
 	for i, w := range weights {
 		if x < w {
 			return i
